@@ -12,7 +12,7 @@
 (*     earlier ones (typemap/module.rs ImportedModuleSpace::get_type);     *)
 (*     custom widgets = unique classes of custom-typed objects (form.rs).  *)
 (* A layout L = [dirs: set of directory names,                             *)
-(*               files: sequence of [dir, name, root, imports, kids]]      *)
+(*               files: sequence of [dir, name, root, imports, kids, qt]]  *)
 (* where root is the type name of the file's root object, imports the      *)
 (* directories named by its string imports in order ("nodir" = a path      *)
 (* that is not a directory) and kids the type names of the child objects.  *)
@@ -26,17 +26,21 @@ MaxOf(S) == CHOOSE x \in S : \A y \in S : y <= x
 \* the module stack of a file above the builtins and the Qt module: own directory, then the string imports that exist, in order
 Stack(L, f) == <<f.dir>> \o SelectSeq(f.imports, LAMBDA d : Exists(L, d))
 Qtype(n) == [k |-> "qt", d |-> "", n |-> n]
-Resolve(L, st, n) ==
-  LET hits == {i \in 1..Len(st) : \E f \in FilesIn(L, st[i]) : f.name = n} IN
+\* the Qt module is visible in a file only if the file itself imports it (field qt: "plain" | "versioned" -- the version is ignored -- | "none");
+\* what a component inherits does not depend on what the file using it imports
+HasQt(f) == IF "qt" \in DOMAIN f THEN f.qt # "none" ELSE TRUE
+Resolve(L, f, n) ==
+  LET st == Stack(L, f)
+      hits == {i \in 1..Len(st) : \E g \in FilesIn(L, st[i]) : g.name = n} IN
   IF hits # {} THEN [k |-> "comp", d |-> st[MaxOf(hits)], n |-> n]          \* the last import providing the name wins
-  ELSE IF n \in Qt THEN Qtype(n) ELSE [k |-> "none", d |-> "", n |-> n]
+  ELSE IF n \in Qt /\ HasQt(f) THEN Qtype(n) ELSE [k |-> "none", d |-> "", n |-> n]
 FileOf(L, t) == CHOOSE f \in Files(L) : f.dir = t.d /\ f.name = t.n
-Super(L, t) == LET f == FileOf(L, t) IN Resolve(L, Stack(L, f), f.root)
+Super(L, t) == LET f == FileOf(L, t) IN Resolve(L, f, f.root)
 \* the Qt class a type finally extends; "" for an unknown name, a dangling super or an inheritance cycle
 RECURSIVE Base(_, _, _)
 Base(L, t, seen) == IF t.k = "qt" THEN t.n ELSE IF t.k = "none" \/ t \in seen THEN "" ELSE Base(L, Super(L, t), seen \cup {t})
 IsWidget(L, t) == Base(L, t, {}) # ""
-Objects(L, s) == <<Resolve(L, Stack(L, s), s.root)>> \o [i \in 1..Len(s.kids) |-> Resolve(L, Stack(L, s), s.kids[i])]
+Objects(L, s) == <<Resolve(L, s, s.root)>> \o [i \in 1..Len(s.kids) |-> Resolve(L, s, s.kids[i])]
 Accepted(L, s) == /\ \A i \in 1..Len(s.imports) : Exists(L, s.imports[i])
                   /\ \A i \in 1..Len(Objects(L, s)) : IsWidget(L, Objects(L, s)[i])
 \* <customwidgets>: one entry per component class instantiated in the document
